@@ -81,8 +81,8 @@ def absHash (s : State) : UInt64 :=
 def stepTag : Step → Nat
   | .checkCancel => 1 | .obtainReuse => 2 | .obtainBack => 3 | .obtainAlloc => 4 | .submitOk => 5
   | .submitFail e => 60 + (match e with | .io => 0 | .disconnected => 1 | .timeout => 2 | .invalidPayload => 3)
-  | .pollOk => 7 | .pollOverflow => 8 | .pollFault => 9 | .pollPending => 10 | .parse => 11
-  | .trySend => 12 | .cancelNext => 13 | .reapOne => 14 | .reapLate => 26 | .iterEnd => 15 | .exit => 16
+  | .pollOk => 7 | .pollOverflow => 8 | .pollFault => 9 | .pollPending => 10 | .pollErr _ => 27 | .rxSendForeign _ => 28 | .parse => 11
+  | .trySend => 12 | .cancelNext => 13 | .reapOne => 14 | .reapLate => 26 | .reapFault => 29 | .iterEnd => 15 | .exit => 16
   | .rxRecv => 17 | .rxNone => 18 | .rxSendBack _ => 19 | .rxDrop _ => 20 | .rxClose => 21
   | .stopCall => 22 | .stopDisc => 23 | .stopBlock => 24 | .closeDone => 25
 
@@ -178,13 +178,31 @@ def applyEvent (E : Env) (ev : String) (a : Acc) : Option Acc :=
     | [id, cls] =>
       match id.toNat?, clsOf cls, frontXfer s, E.script[s.consumed]? with
       | some id, some e, some x, some (.fault e') =>
-        if x.id = id ∧ e = e' then E.step a .pollFault else none
+        if x.id = id ∧ e = e' then
+          (match s.pc with
+           | .drop _ => E.step a .reapFault     -- reaped during `AsyncPool::drop` with its own error
+           | _ => E.step a .pollFault)
+        else none
       | _, _, _, _ => none
     | _ => none
   else if ev.startsWith "PP" then
     match body.toNat?, frontXfer s with
     | some id, some x => if x.id = id then E.step a .pollPending else none
     | _, _ => none
+  else if ev.startsWith "PX" then
+    -- the event loop failed: nothing reaped
+    match splitComma body with
+    | [id, cls] =>
+      match id.toNat?, clsOf cls, frontXfer s, s.pc with
+      | some id, some e, some x, .poll => if x.id = id then E.step a (.pollErr e) else none
+      | some id, some _, some x, .drop _ => if x.id = id then E.step a .reapLate else none
+      | _, _, _, _ => none
+    | _ => none
+  else if ev.startsWith "RF" then
+    -- send_back of a foreign payload whose buffer has this many bytes
+    match body.toNat? with
+    | some n => E.step a (.rxSendForeign (List.replicate n 0))
+    | none => none
   else if ev.startsWith "PL" then
     -- poll of a cancelled transfer whose completion is not reported yet
     match body.toNat?, frontXfer s with
